@@ -57,28 +57,28 @@ def _mc_index(pid, tier, appends, damage):
                          timeout=600 if tier == QUICK else 3000)
 
 
-def _tlaps_index(pid):
+def _tlaps_index(pid, module="IndexRefine", least=100):
     """IndexRefine.tla: the UNBOUNDED statements (any log length, any key set) proved by TLAPS:
     the append-only log refines a map (InitInv, NextInv), damage of one record is contained to
     its key (DamageContained), a lookup is a function of the log (YieldsUnique).  MC_Index checks
     (invariant RefinesAbstract) that the fold of the token-level model is that lookup."""
     import subprocess, time, re
-    wd = os.path.join(WORK, pid, "tlaps")
+    wd = os.path.join(WORK, pid, "tlaps_" + module)
     shutil.rmtree(wd, ignore_errors=True)
     os.makedirs(wd, exist_ok=True)
-    shutil.copy(os.path.join(SPEC, "IndexRefine.tla"), wd)
+    shutil.copy(os.path.join(SPEC, module + ".tla"), wd)
     t0 = time.time()
     try:
-        r = subprocess.run(["timeout", "900", "tlapm", "--threads", "8", "IndexRefine.tla"], cwd=wd,
+        r = subprocess.run(["timeout", "900", "tlapm", "--threads", "8", module + ".tla"], cwd=wd,
                            capture_output=True, text=True)
     except FileNotFoundError:
         raise ToolError("tlapm not found")
     out = r.stdout + r.stderr
     m = re.search(r"All (\d+) obligations proved", out)
-    if not m or int(m.group(1)) < 100:
-        raise ToolError("TLAPS did not prove IndexRefine.tla:\n" + out[-2500:])
+    if not m or int(m.group(1)) < least:
+        raise ToolError("TLAPS did not prove %s.tla:\n" % module + out[-2500:])
     shutil.rmtree(os.path.join(wd, ".tlacache"), ignore_errors=True)
-    return {"module": "IndexRefine", "cfg": "tlapm: %s proof obligations, unbounded log length and key set" % m.group(1),
+    return {"module": module, "cfg": "tlapm: %s proof obligations, unbounded log length and key set" % m.group(1),
             "states": 0, "transitions": 0, "wall": round(time.time() - t0, 1)}
 
 
@@ -808,7 +808,12 @@ def check_C07(tier, rng, jobs):
     agg["cases"] |= ragg["cases"]
     agg["divs"] += ragg["divs"]
     agg["histories"] = agg.get("histories", 0) + ragg.get("histories", 0)
-    return {"mc": _fs_mc("C07", tier), "agg": agg,
+    # lookups racing with appenders, without a bound on readers, appends or read sizes: TLAPS
+    # (IndexReaders.tla: a reader linearizes at its end-of-file read), and the same module on a
+    # small instance by TLC (the proof's definitions are not vacuous: Finish is reached)
+    rd = [_tlaps_index("C07", "IndexReaders", 150),
+          M.check_model("MC_Readers", "MC_Readers.cfg", os.path.join(WORK, "C07", "mc_readers"), workers=4, timeout=600)]
+    return {"mc": _fs_mc("C07", tier) + rd, "agg": agg,
             "samples": [scen[1]["plan"], scen[1]["variant"], scen[-1]["plan"]],
             "rule": "pairs (thorough: also triples) of operations from {write same key, write other key with identical "
                     "content, streamed write, write_hash, read, read_hash, metadata, remove, remove_hash, exists, list} on "
